@@ -192,6 +192,17 @@ theorem dm_fidelity_of_stabilizer_states (a b : Tab) (ha : a.isSymplectic = true
   show Except.ok (FidOut.val (clip01 (stabOverlap a b))) = _
   rw [clip01_id _ this.1 this.2]
 
+/-- **… and that value is `|⟨ψ_a|ψ_b⟩|²`** (every n, valid tableaux of equal size): there are unit vectors `ψ_a`, `ψ_b` with
+    `ρ_a = |ψ_a⟩⟨ψ_a|`, `ρ_b = |ψ_b⟩⟨ψ_b|` (`Hilbert.tabRho` is the complex matrix that `stabilizerDensity` represents) whose
+    squared inner product is the exact rational overlap — the quantity both backends return as the fidelity. -/
+theorem stabilizer_fidelity_is_squared_inner_product (a b : Tab) (ha : a.isSymplectic = true) (hb : b.isSymplectic = true)
+    (hn : a.n = b.n) :
+    ∃ ψa ψb : Hilbert.Bits a.n → ℂ,
+      (∑ x, star (ψa x) * ψa x = 1) ∧ (∑ x, star (ψb x) * ψb x = 1) ∧
+      (∀ x y, Hilbert.tabRho a.n a x y = ψa x * star (ψa y)) ∧ (∀ x y, Hilbert.tabRho a.n b x y = ψb x * star (ψb y)) ∧
+      ((stabOverlap a b : Rat) : ℂ) = (∑ x, star (ψa x) * ψb x) * star (∑ x, star (ψa x) * ψb x) :=
+  C17B.stabOverlap_inner a b ((Tab.isSymplectic_iff a).1 ha) ((Tab.isSymplectic_iff b).1 hb) hn
+
 /-- **`Infidelity` agrees across representations** (every n, all valid tableaux of equal size): it returns the same value
     whether target and state are held as tableaux or both as matrices — unconditionally — and also with the target as a
     matrix and the state as a tableau **provided the state's generators carry no sign** (the region outside known finding
